@@ -76,6 +76,8 @@ piece = st.one_of(
     st.sampled_from(list("0123456789.")),
     st.sampled_from(["12", "3.5", ".", "..", "1.2.3", "007", "9."]),
     st.sampled_from(list("xyzabsgnSGN")),
+    st.sampled_from(list("abcdefghijklmnopqrstuvwxyzABCDEFGHIJKLMNOPQRSTUVWXYZ")),
+    st.sampled_from(["2e3", "1e5", "1.5e10", "2E3", "7e", "e7", "1e-5", "pi", "inf", "nan", "0x1F", "1j", "2i", "1_000", "abs", "sin", "log", "sqrt", "exp"]),
     st.sampled_from(["sgn", "sgn", "sgnx", "xsgn", "ssgn", "sg", "gn", "sgnsgn", "Sgn", "SGN", "sgn(", "sgn ", " sgn", "2sgn", "sgn2"]),
     st.sampled_from(list("+-*/^!=()[]")),
     st.sampled_from(["–", "–", " ", "  ", "\t", "\n", "\r", "\r\n"]),
@@ -139,7 +141,25 @@ def replay(ctx, case):
     check_string(ctx, case)
 
 
+CHARS = list("abcdefghijklmnopqrstuvwxyz") + list("SGNEX") + list("0123456789") + ["."] + list("+-*/^!=()[]") + [" ", "\t", "\n", "–"]
+
+
 def run(ctx):
+    # bounded-exhaustive part: every string of <= 3 (quick) / 4 (thorough) characters over every lower-case letter, five
+    # capitals, the digits, the dot, every operator and bracket, three blanks and the en-dash alias
+    import itertools
+
+    bound = 3 if ctx.tier == "quick" else 4
+    n = 0
+    for k in range(1, bound + 1):
+        for seq in itertools.product(CHARS, repeat=k):
+            n += 1
+            if n % ctx.nshards != ctx.shard:
+                continue
+            ctx.count("evaluations")
+            ctx.count("exhaustive_strings")
+            check_string(ctx, {"s": "".join(seq)})
+    ctx.info["exhaustive_character_sequences"] = f"all {n} strings of <= {bound} characters over {len(CHARS)} characters"
     strat = st.one_of(supported, supported, supported, with_foreign).map(lambda s: {"s": s})
     hyp_run(ctx, "strings", strat, check_string, ctx.n(10000, 150000))
     if ctx.tier == "thorough":
